@@ -8,7 +8,7 @@ src = "/tmp/wt-out/%s/m%s" % (p, k)
 dst = "/verif/seeded/%s-m%s" % (p, k)
 os.makedirs(dst, exist_ok=True)
 for f in ("patch.diff", "demo_test.go", "meta.json", "confirm.json"):
-    if os.path.exists(os.path.join(src, f)):
+    if os.path.isdir(src) and os.path.exists(os.path.join(src, f)):
         shutil.copy(os.path.join(src, f), os.path.join(dst, f))
 assert subprocess.run(["git", "-C", "/repo", "status", "--porcelain"], capture_output=True, text=True).stdout.strip() == "", "/repo not clean"
 subprocess.run(["git", "-C", "/repo", "apply", os.path.join(dst, "patch.diff")], check=True)
